@@ -69,7 +69,8 @@ namespace ratio
 
     CORE_EXPORT expr type::new_existential()
     {
-        assert(!instances.empty());
+        if (instances.empty()) // there is no object the variable could stand for..
+            throw inconsistency_exception();
         if (instances.size() == 1)
             return *instances.cbegin();
         else
